@@ -1,8 +1,8 @@
 /-
   Exhaustive search of the two-machine system for one stream (a test, not a proof): two copies of the generated stream
   state machine, two FIFO queues of frames in flight (at most MAXQ each way).  Each side sends only what its own machine
-  accepts (and not D17b's DATA before response headers); every delivery must be graceful (accepted or the quiet
-  'stream closed' signal).  Prints the number of configurations reached and the refused deliveries found.
+  accepts (and not D17b's DATA before response headers); every delivery must be fine (accepted, or dealt with quietly by a
+  stream already closed on the receiving side).  Prints the number of configurations reached and the refused deliveries found.
   Run: cd lean && lake env lean ../tools/pair_fsm_search.lean   (MAXQ = 3: about 20 s; 4: four minutes, 1 118 839 configurations)
 -/
 import H2.Proofs.Shapes
@@ -51,12 +51,12 @@ def succs (maxq : Nat) (c : Cfg) : List (Cfg × Option String) :=
   let da := match c.qa with
     | i :: rest =>
       let (r, s') := stepShape c.sb ((recvOf i).get!)
-      [({ c with sb := s', qa := rest }, if graceful r then none else some s!"B refuses {repr i} in {repr c.sb.state} cb={repr c.sb.closedBy}")]
+      [({ c with sb := s', qa := rest }, if (isOk r || (c.sb.state == .CLOSED && graceful r)) then none else some s!"B refuses {repr i} in {repr c.sb.state} cb={repr c.sb.closedBy}")]
     | [] => []
   let db := match c.qb with
     | k :: rest =>
       let (r, s') := stepShape c.sa ((recvOf k).get!)
-      [({ c with sa := s', qb := rest }, if graceful r then none else some s!"A refuses {repr k} in {repr c.sa.state} cb={repr c.sa.closedBy}")]
+      [({ c with sa := s', qb := rest }, if (isOk r || (c.sa.state == .CLOSED && graceful r)) then none else some s!"A refuses {repr k} in {repr c.sa.state} cb={repr c.sa.closedBy}")]
     | [] => []
   sa ++ sb ++ da ++ db
 
